@@ -122,6 +122,19 @@ def run_case(case, ctx):
         scale = abs(f0) + 1.0
         ctx.close("value_vs_nograd", val, v0, 1e-12 * scale, f"{sig}/value_ne_nograd_value")
         ctx.close("value_vs_ref", val, f0, 1e-9 * scale, f"{sig}/value_ne_reference_2nll")
+        # repeated evaluation with one and the same backend tensor (call history must not matter)
+        t_arg = tl.astensor(x0)
+        okr1, rep1 = ctx.call(f"{sig}/func_tensor_argument", kw["func"], t_arg)
+        okr2, rep2 = ctx.call(f"{sig}/func_tensor_argument", kw["func"], t_arg)
+        if okr1 and okr2:
+            g1 = [float(g) for g in backends.tonp(rep1[1]).reshape(-1)]
+            g2 = [float(g) for g in backends.tonp(rep2[1]).reshape(-1)]
+            if len(g1) != len(grad) or any(abs(a - b) > 1e-9 * (1 + abs(b)) for a, b in zip(g1, grad)):
+                ctx.fail(f"{sig}/gradient_differs_for_tensor_argument", first=g1[:4], reference_call=grad[:4])
+            elif any(abs(a - b) > 1e-9 * (1 + abs(b)) for a, b in zip(g2, g1)):
+                ctx.fail(f"{sig}/gradient_depends_on_call_history", first=g1[:4], second=g2[:4])
+            if abs(float(backends.tonp(rep2[0])) - val) > 1e-9 * scale:
+                ctx.fail(f"{sig}/value_depends_on_call_history")
         idx = free_idx if case["stitch"] else list(range(cfg.npars))
         if len(grad) != len(idx):
             ctx.fail(f"{sig}/gradient_length", got=len(grad), want=len(idx), stitched=case["stitch"])
